@@ -133,6 +133,16 @@ def showPolicyList : List Policy → String
   | p :: ps => "," ++ showPolicy p ++ showPolicyList ps
 end
 
+def showNats (l : List Nat) : String :=
+  if l.isEmpty then "-" else String.intercalate "," (l.map toString)
+def parseNats (s : String) : Option (List Nat) :=
+  if s == "-" then some [] else (s.splitOn ",").mapM String.toNat?
+/-- strictly ascending -/
+def ascOnce : List Nat → Bool
+  | x :: y :: rest => decide (x < y) && ascOnce (y :: rest)
+  | _ => true
+def sameNats (a b : List Nat) : Bool := a.all b.contains && b.all a.contains
+
 def showOptNat : Option Nat → String
   | none => "none"
   | some n => toString n
@@ -195,6 +205,29 @@ def opsPolicy (kind op : String) (args : List String) : Option String :=
     let a ← parsePolicy a; let b ← parsePolicy b; pure (showEnt (Sem.entails a b))
   | "C", "minkeys", [p] => do let p ← parsePolicy p; pure (showOptNat (Sem.minimumNKeys p))
   | "C", "nkeys", [p] => do let p ← parsePolicy p; pure (toString (Sem.nKeys p))
+  | "C", "rtl", [p] => do let p ← parsePolicy p; pure (showNats (Sem.relativeTimelocks p))
+  | "C", "atl", [p] => do let p ← parsePolicy p; pure (showNats (Sem.absoluteTimelocks p))
+  | "C", "isconst", [p] => do
+    let p ← parsePolicy p
+    pure ((if Sem.isTrivial p then "1" else "0") ++ (if Sem.isUnsat p then "1" else "0"))
+  | "C", "cdup", [c] => do
+    let c ← parseCPolicy c; pure (if Conc.checkDuplicateKeys c then "ok" else "dup")
+  | "C", "cvalid", [c] => do
+    let c ← parseCPolicy c
+    pure (match Conc.isValid c with | .ok => "ok" | .timelock => "timelock" | .dupKeys => "dup")
+  | "J", "locks", [p, rel, abs] => do
+    -- the reported lock lists are exactly the `older` / `after` values of the policy, ascending,
+    -- each once (specification: the atoms of the policy)
+    let p ← parsePolicy p
+    let olds := (atomsOf p).filterMap fun | .older t => some t | _ => none
+    let afts := (atomsOf p).filterMap fun | .after t => some t | _ => none
+    let rel ← parseNats rel; let abs ← parseNats abs
+    pure (okbadP (ascOnce rel && ascOnce abs && sameNats rel olds && sameNats abs afts))
+  | "J", "cdup", [c, ans] => do
+    -- refused iff some key occurs twice
+    let c ← parseCPolicy c
+    let ks := (atomsOfC c).filter Atom.isKey
+    pure (okbadP ((ans == "dup") == ks.any (fun k => ks.count k > 1)))
   | "C", "clift", [c] => do let c ← parseCPolicy c; pure (showLift (Conc.lift c))
   | "C", "checktl", [c] => do
     let c ← parseCPolicy c; pure (if Conc.checkTimelocks c then "ok" else "err")
